@@ -1198,8 +1198,11 @@ def verdict(ctx, batches, res, what="generated"):
             continue
         seen += 1
         if seen <= 3:
-            ctx.violation("C09 violated (%s case): replay does not show the values that were passed" % what,
-                          {"mode": "values", "case": public(c), "observed": observed(c)}, True)
+            hi = max(len(c["obs"]["img_entry"]), len(c["obs"]["img_exit"]))
+            ctx.violation("C09 violated (%s case): %s" % (what,
+                          ("libmcount stored %d bytes past the frame's 1024-byte argument buffer" % (hi - 1024))
+                          if hi > 1024 else "replay does not show the values that were passed"),
+                          {"mode": "values", "case": public(c), "observed": observed(c), "argbuf_extent": hi}, True)
     for b in batches:
         for c in b:
             if c.get("skip_judge"):
